@@ -654,6 +654,11 @@ def run(ctx):
     ctx.require('fault_in_disconnect_handler', 3)
     ctx.require('fault_in_connect_handler', 3)
     ctx.require('fault_in_event_handler', 3)
+    # threaded server: one client ended by two or three parties at the same
+    # time (the controlled scheduler and scenarios of C20): once they have
+    # all finished, the server is back at its baseline
+    ctx.require('concurrent_end_schedules', 50)
+    concurrent_ends(ctx, (ctx.budget or 45) * 0.15)
     k = 0
     while not ctx.out_of_time() and not ctx.too_many_violations():
         run_case(ctx, k)
@@ -661,7 +666,39 @@ def run(ctx):
         k += 1
 
 
+def concurrent_ends(ctx, share):
+    import itertools
+    import time
+    from checks import c20
+    t0 = time.time()
+    base = c20.baseline_size()
+    pairs = [list(p) for p in itertools.combinations(c20.CAUSES, 2)]
+    n0 = ctx.counters.get('schedules_run', 0)
+    limit = 40 if ctx.tier == 'quick' else 2000
+    for i, causes in enumerate(pairs):
+        if ctx.nshards > 1 and i % ctx.nshards != ctx.shard % len(pairs):
+            continue
+        if time.time() - t0 > share * 0.7 or ctx.too_many_violations():
+            break
+        c20.explore_dfs(ctx, causes, None, base, limit)
+    k = ctx.shard * 10 ** 6
+    triples = [list(t) for t in itertools.combinations(c20.CAUSES, 3)]
+    while time.time() - t0 < share and not ctx.too_many_violations():
+        rng = ctx.case_rng(11 * 10 ** 7 + k)
+        c20.run_schedule(ctx, list(rng.choice(pairs + triples)), [], rng,
+                         None, False, base)
+        k += 1
+    ctx.count('concurrent_end_schedules',
+              ctx.counters.get('schedules_run', 0) - n0)
+
+
 def replay(ctx, w):
+    if 'causes' in w['witness'] and 'choices' in w['witness']:
+        from checks import c20
+        wi = w['witness']
+        return c20.run_schedule(ctx, wi['causes'], wi['choices'], None, None,
+                                False, c20.baseline_size(),
+                                wi.get('partial_binary_packet', False))
     if w['witness'].get('part') == 'refusal_race':
         return refusal_race(ctx, w['witness']['case_index'])
     run_case(ctx, w['witness']['case_index'])
